@@ -62,7 +62,7 @@ prop( 'C20', [ 'T-TNET' ],
       not_decided='value round trip for all values, nesting depth, chunking (dynamic).',
       technique='encoder/decoder idiom classification over dispatch chains (AST pattern matching); grammar extraction' )
 
-prop( 'C03', [ 'W-ATTR', 'D-VALIDATE', 'R-SNAPSHOT', 'D-TYPE', 'T-TYPENAMES', 'T-ATTRKEYS' ],
+prop( 'C03', [ 'W-ATTR', 'D-VALIDATE', 'R-SNAPSHOT', 'D-TYPE', 'T-TYPENAMES', 'T-ATTRKEYS', 'T-SYMBOL' ],
       decides='storage-discipline clauses only.  W-ATTR: tags are mutated only by statements reachable for the write services '
               '(Write Tag, Write Tag Fragmented, Set Attribute Single) - no read service and no refused request changes a tag; '
               'D-VALIDATE: the tag store is dominated by type and range validation, the stored slice is the validated (beg,end), the write-capacity '
@@ -108,7 +108,7 @@ prop( 'C18', [ 'T-RECORD', 'X-STATES' ],
       not_decided='exactly-once / in-order / on-time delivery against the clock (schedule and clock dependent).',
       technique='writer/reader field-table agreement (AST patterns); state-table exhaustiveness' )
 
-prop( 'C02', [ 'G-CHUNK', 'G-FRAME', 'P-ACT', 'P-ONE', 'R-ISO', 'R-SENT', 'R-PROGRESS', 'G-PRIMS' ],
+prop( 'C02', [ 'G-CHUNK', 'G-FRAME', 'P-ACT', 'P-ONE', 'R-ISO', 'N-RECV', 'R-SENT', 'R-PROGRESS', 'G-PRIMS' ],
       decides='G-CHUNK: in the stream-fed machines (enip_machine incl. enip_header; tnet_machine) no state has both an input edge and a '
               'None edge and no transition predicate inspects the source - i.e. no state\'s successor depends on whether the next byte has '
               'arrived yet (necessary for chunk independence); G-FRAME: the header sub-graph is the single unconditional chain of the six '
@@ -175,7 +175,7 @@ prop( 'C09', [ 'R-LOCK-1', 'R-LOCK-6', 'R-LOCK-2', 'R-LOCK-3', 'R-LOCK-4', 'R-LO
       technique='lock-set style who-holds-what rules over call sites (AST + dominance); field-to-lock tables',
       thorough_rules=[] )
 
-prop( 'C13', [ 'S-COMPLETE', 'P-MATCH', 'P-FRESH', 'P-BUNDLE', 'P-DISCARD', 'P-ACT', 'P-GATEWAY' ],
+prop( 'C13', [ 'S-COMPLETE', 'P-MATCH', 'P-FRESH', 'P-BUNDLE', 'P-DISCARD', 'P-ACT', 'N-RECV', 'P-GATEWAY' ],
       decides='S-COMPLETE (sibling cross-check): every harvesting driver operate() can return (synchronous, pipeline) compares, after its '
               'harvest loop, a counter fed by the issue stream with a counter fed by the harvested results and raises on a mismatch - so '
               'the client can never silently return fewer results than operations; P-MATCH: in harvest every yield is dominated by an assert '
